@@ -18,6 +18,10 @@ pub const ZINC_HAND: &[&str] = &[
     "75%",
     "21.5°C",
     "\"hello \\\"w\\\" \\n \\u00e9 \\$ é𝄞\"",
+    "\"\\ud83d\\ude00 \\ud83d x \\ude00 \\ud83d\\u0041 \\udbff\\uffff \\u0000\"",
+    "`a\\ud83d\\u0041b\\ud83d\\ude00`",
+    "08:05:01.05",
+    "2021-06-07T00:00:00.000001Z",
     "`http://h/p?q=1#f`",
     "`a\\:b\\/c\\`d`",
     "@a-b:c.d~e_f",
